@@ -85,7 +85,7 @@ def readme():
     root = os.path.join(VERIF, "seeded")
     for sid in sorted(os.listdir(root)):
         mp = os.path.join(root, sid, "meta.json")
-        if not os.path.exists(mp):
+        if not os.path.exists(mp) or sid in ("superseded", "rejected"):
             continue
         m = json.load(open(mp))
         rows.append("| %s | %s | %s | %s | %s |" % (sid, m["property"], m["summary"].replace("|", "/"), m["needs"].replace("|", "/"), ", ".join(m.get("caught_by", [])) or "**missed**"))
@@ -115,7 +115,7 @@ def main():
         readme()
     elif sys.argv[1] == "recheck":
         root = os.path.join(VERIF, "seeded")
-        ids = sys.argv[2:] or sorted(x for x in os.listdir(root) if os.path.isdir(os.path.join(root, x)))
+        ids = sys.argv[2:] or sorted(x for x in os.listdir(root) if os.path.isdir(os.path.join(root, x)) and x not in ("superseded", "rejected"))
         for sid in ids:
             d = os.path.join(root, sid)
             meta = json.load(open(os.path.join(d, "meta.json")))
